@@ -37,8 +37,8 @@ static int tab_insert(uint64_t h1, uint64_t h2) {          /* 1 if new */
 }
 
 static void compute_key(uint64_t *h1, uint64_t *h2) {
-    size_t n = vf_canon(keybuf, keycap - 4096);
-    if (C->model_size) { memcpy(keybuf + n, C->model, C->model_size); n += C->model_size; }
+    size_t n = C->no_heap_key ? 0 : vf_canon(keybuf, keycap - 4096);
+    if (C->model_size && !C->no_model_key) { memcpy(keybuf + n, C->model, C->model_size); n += C->model_size; }
     if (C->extra_key) n += C->extra_key(keybuf + n, keycap - n);
     *h1 = vf_hash64(keybuf, n, 1);
     *h2 = vf_hash64(keybuf, n, 0x5bd1e995);
@@ -174,6 +174,7 @@ void e1_run(const e1_cfg *c, e1_stats *out) {
             generic_checks();
             out->transitions++;
             uint64_t th = vf_trace_hash();
+            if (c->obs_hash) th ^= c->obs_hash();
             vf_outcome(th);
             out->out_hash = vf_hash64(&th, 8, out->out_hash);
             if (c->compare_outhash) {
